@@ -1161,6 +1161,7 @@ func propC11(r *Run) {
 	r.c11Programs(true, rounds/8)
 	c11SourceBias = false
 	r.c11Locations()
+	r.c11LocMethods()
 	r.c11Origins()
 	r.c11PropsSharing()
 	r.c11RepairMerging()
@@ -1168,5 +1169,6 @@ func propC11(r *Run) {
 	r.notes = append(r.notes,
 		"exhaustive small scope: Insert/Embed over host len 0..3(5) x spare {0,1,|guest|,8} x off {0,3} x guest len 0..2 x guest spare x index; host and guest as windows of one buffer; Delete/Rotate/Slice over all indices; Concat arrangements",
 		"random worlds: 2..3 sequences over 1..3 byte arrays (spare 0,1,2,16; off 0,3; shared windows and sub-windows) and table arrays (spare cells hold sentinel features or the rest of a longer table; shared tables, prefix windows), shared locations/qualifiers on a coin flip, programs of 1..4 operations on one sequence",
-		"every third program also uses Repair / WithInfo / WithBytes / WithFeatures / Copy (oracle only: no Lean counterpart)")
+		"every third program also uses Repair / WithInfo / WithBytes / WithFeatures / Copy (oracle only: no Lean counterpart)",
+		"location methods in memory (mem.loc): random locations of depth <= 3 laid out as windows of location-cell arrays (cells before / behind the window, spare capacity, a repeated part as ONE slice or as overlapping windows), Expand / Shift / Normalize / Reverse / Complement / the asComplete call site of Slice; answer = every array after the call + the result as a pointer graph")
 }
